@@ -42,18 +42,34 @@ def _tx_calls(calls: list) -> list:
     return [c.strip().split()[0].upper() for c in calls if isinstance(c, str) and c.strip() and c.strip().split()[0].upper() in TX_WORDS]
 
 
-def _step(a_tx: bool, b_tx: bool, who: int, which_cur: int, si: int) -> bool:
+HIST = ["fresh", "open transaction", "rolled a transaction back earlier", "committed a transaction earlier"]
+
+
+def _history(curs_of_session, h: int) -> None:
+    """Bring a session into one of the pre-state classes through the public API."""
+    if h == 1:
+        curs_of_session[0].execute("begin")
+        curs_of_session[1].execute("insert into t2 values (100)")
+    elif h == 2:
+        curs_of_session[1].execute("begin")
+        curs_of_session[0].execute("insert into t2 values (55)")
+        curs_of_session[1].execute("rollback")
+    elif h == 3:
+        curs_of_session[0].execute("begin")
+        curs_of_session[0].execute("insert into t2 values (56)")
+        curs_of_session[1].execute("commit")
+
+
+def _step(a_h: int, b_h: int, who: int, which_cur: int, si: int) -> bool:
     eng = std_engine()
     fs = instance(eng)
     A = fs.connect(database="db1", schema="s1")
     B = fs.connect(database="db1", schema="s1")
     conns = [A, B]
     curs = [[A.cursor(), A.cursor()], [B.cursor(), B.cursor()]]
-    if a_tx:
-        curs[0][0].execute("begin")
-        curs[0][1].execute("insert into t2 values (100)")
-    if b_tx:
-        curs[1][1].execute("begin")
+    a_tx, b_tx = a_h == 1, b_h == 1
+    _history(curs[0], a_h)
+    _history(curs[1], b_h)
     # R: exactly two engine connections carry the two sessions, and they are different
     active = [s for s in eng.stubs if s.calls and any("T2" in str(c).upper() or "BEGIN" in str(c).upper() for c in s.calls)]
     stubs_by_tx = [s for s in eng.stubs if s.in_tx]
@@ -158,21 +174,22 @@ def _step(a_tx: bool, b_tx: bool, who: int, which_cur: int, si: int) -> bool:
 @ob(
     "C13.statement_routing_one_step",
     encodes=["fakesnow.instance.FakeSnow.connect", "fakesnow.conn.FakeSnowflakeConnection.cursor/commit/rollback", "fakesnow.cursor.FakeSnowflakeCursor.execute/_execute/executemany/description"],
-    bounds="two sessions x two cursors each; pre-state: each session inside or outside a transaction (opened through different cursors); step: "
+    bounds="two sessions x two cursors each; pre-state: each session fresh | inside a transaction | after a rolled-back transaction | after a committed "
+    "transaction (all reached through the public API, through different cursors); step: "
     "session, cursor and one of 14 statements (BEGIN, COMMIT, ROLLBACK, INSERT, UPDATE, executemany, SELECT, a failing execute / executemany / execute_string, conn.commit(), "
     "conn.rollback(), reading description, CREATE TABLE with comment and VARCHAR length)",
     timeout=(300, 600),
     stubs=["K3 vf.duckstub.Engine (per-connection transaction flag, call log per engine connection)"],
     shards=(14, 14),
 )
-def routing(a_tx: bool, b_tx: bool, who: int, which_cur: int, si: int) -> bool:
+def routing(a_h: int, b_h: int, who: int, which_cur: int, si: int) -> bool:
     """
-    pre: 0 <= who <= 1 and 0 <= which_cur <= 1 and 0 <= si < len(STMTS) and (SHARD < 0 or si == SHARD)
-    pre: not (si == 0 and ((who == 0 and a_tx) or (who == 1 and b_tx)))
+    pre: 0 <= a_h <= 3 and 0 <= b_h <= 3 and 0 <= who <= 1 and 0 <= which_cur <= 1 and 0 <= si < len(STMTS) and (SHARD < 0 or si == SHARD)
+    pre: not (si == 0 and ((who == 0 and a_h == 1) or (who == 1 and b_h == 1)))
     post: _
     """
     P = fast.pick
-    return done(fast.native(_step, bool(P(a_tx, 2)), bool(P(b_tx, 2)), P(who, 2), P(which_cur, 2), P(si, len(STMTS))))
+    return done(fast.native(_step, P(a_h, 4), P(b_h, 4), P(who, 2), P(which_cur, 2), P(si, len(STMTS))))
 
 
 def _real_routing(a: dict):
@@ -186,11 +203,10 @@ def _real_routing(a: dict):
     boot.execute("create table t2 (a int)")
     curs = [[A.cursor(), A.cursor()], [B.cursor(), B.cursor()]]
     problems = []
-    if a["a_tx"]:
-        curs[0][0].execute("begin")
-        curs[0][1].execute("insert into t2 values (100)")
-    if a["b_tx"]:
-        curs[1][1].execute("begin")
+    a = dict(a)
+    a["a_tx"], a["b_tx"] = a["a_h"] == 1, a["b_h"] == 1
+    _history(curs[0], a["a_h"])
+    _history(curs[1], a["b_h"])
     stmt = STMTS[a["si"]]
     who, wc = a["who"], a["which_cur"]
     cur, conn = curs[who][wc], [A, B][who]
@@ -246,6 +262,16 @@ def _real_routing(a: dict):
             problems.append("committed row not visible to the other session")
     except Exception as e:  # noqa: BLE001
         problems.append(f"follow-up select raised {type(e).__name__}: {e}")
+    # a BEGIN must really open a transaction, whatever the session did before: a row written now and rolled back must disappear
+    if stmt == "begin" and not problems:
+        try:
+            curs[who][1 - wc].execute("insert into t2 values (888)")
+            curs[who][wc].execute("rollback")
+            left = [r[0] for r in curs[1 - who][0].execute("select a from t2").fetchall()]
+            if 888 in left:
+                problems.append("BEGIN did not open a transaction: a row written after it survived ROLLBACK")
+        except Exception as e:  # noqa: BLE001
+            problems.append(f"transaction probe after BEGIN raised {type(e).__name__}: {e}")
     # a session that was inside a transaction and did not end it itself must still be inside it: a row written now
     # and rolled back must disappear
     for idx, was_tx in enumerate((a["a_tx"], a["b_tx"])):
